@@ -38,7 +38,8 @@ DoInsert == /\ phase = "layout"
 CaseNow == CaseOf(Pre, post,
                   IF req.op = "insert" THEN req.i - 1 ELSE req.i - 1,
                   IF req.op = "insert" THEN req.i - 1 ELSE req.i,
-                  req.lm, req.tm, req.op = "delete")
+                  IF req.op = "insert" THEN TvOf(Pre, 1, "block", "line") ELSE TvOf(Pre, req.i, req.lm, req.tm),
+                  req.op = "delete")
 
 (* ---- damages: one fault in the post text, far from or next to the element --- *)
 (* statements whose own line and surrounding trivia the request cannot touch   *)
